@@ -23,7 +23,7 @@ const (
 	ROpDMT              // DocsMatchingTerms
 	ROpStats            // CollectionStats
 	ROpPersist          // Segment.WriteTo
-	ROpSize             // Segment.Size() (an observation like any other: must not change while others read)
+	ROpSize             // Segment.Size() (called for the race detector; must be positive)
 	NumROpKinds
 )
 
@@ -174,7 +174,7 @@ func ExpectROp(ws *WSeg, op *ROp) *RRes {
 	case ROpPersist:
 		r.NBytes = len(ws.Bytes)
 	case ROpSize:
-		r.NBytes = ws.SizeAlone
+		r.NBytes = 0
 	}
 	if op.Nest != nil && (op.Kind == ROpStored || op.Kind == ROpDocValues) && nestFires(ws, op) {
 		r.Nested = ExpectROp(ws, op.Nest)
@@ -207,6 +207,12 @@ func nestFires(ws *WSeg, op *ROp) bool {
 	}
 	return false
 }
+
+// RopMismatch is returned by ExecROp when the HARNESS finds what the calls
+// delivered inconsistent (as opposed to an error reported by an API call).
+type RopMismatch struct{ Msg string }
+
+func (e *RopMismatch) Error() string { return e.Msg }
 
 // ExecROp runs the operation against the real segment. It returns the result
 // delivered so far and the first error. Panics propagate (callers Guard).
@@ -243,7 +249,7 @@ func ExecROp(ws *WSeg, seg segment.Segment, op *ROp, h *ropHooks) (*RRes, error)
 			}
 			r.Terms = append(r.Terms, model.TermObs{Term: model.Bytes(e.Term()), Count: e.Count()})
 			if len(r.Terms) > 1<<20 {
-				return r, fmt.Errorf("dictionary iterator does not terminate")
+				return r, &RopMismatch{"dictionary iterator does not terminate"}
 			}
 		}
 		_ = it.Close()
@@ -287,7 +293,7 @@ func ExecROp(ws *WSeg, seg segment.Segment, op *ROp, h *ropHooks) (*RRes, error)
 			}
 			r.Posts = append(r.Posts, ReadPosting(p, wf, wn, wl))
 			if len(r.Posts) > 1<<22 {
-				return r, fmt.Errorf("postings iterator does not terminate")
+				return r, &RopMismatch{"postings iterator does not terminate"}
 			}
 		}
 		if !h.reuse {
@@ -361,7 +367,12 @@ func ExecROp(ws *WSeg, seg segment.Segment, op *ROp, h *ropHooks) (*RRes, error)
 		}
 		r.Stat = &model.StatObs{Total: cs.TotalDocumentCount(), Docs: cs.DocumentCount(), Sum: cs.SumTotalTermFrequency()}
 	case ROpSize:
-		r.NBytes = seg.Size()
+		// the value is not compared (an implementation may account for lazily
+		// loaded caches, so it may legitimately grow while others read); the call
+		// is made for the race detector and must return something sensible
+		if sz := seg.Size(); sz <= 0 {
+			r.NBytes = sz - 1
+		}
 		h.call("Size", nil, false)
 	case ROpPersist:
 		wr := NewSimWriter(h.sched)
@@ -371,7 +382,7 @@ func ExecROp(ws *WSeg, seg segment.Segment, op *ROp, h *ropHooks) (*RRes, error)
 		}
 		r.NBytes = int(n)
 		if int(n) != len(wr.Buf) || !bytesEq(wr.Buf, ws.Bytes) {
-			return r, fmt.Errorf("WriteTo wrote %d bytes (returned %d), differing from the original image of %d bytes at offset %d", len(wr.Buf), n, len(ws.Bytes), firstDiff(wr.Buf, ws.Bytes))
+			return r, &RopMismatch{fmt.Sprintf("WriteTo wrote %d bytes (returned %d), differing from the original image of %d bytes at offset %d", len(wr.Buf), n, len(ws.Bytes), firstDiff(wr.Buf, ws.Bytes))}
 		}
 	}
 	if nestedErr != nil {
@@ -408,4 +419,52 @@ func normRRes(r *RRes) *RRes {
 	out := &RRes{}
 	_ = json.Unmarshal(b, out)
 	return out
+}
+
+// PrefixRRes checks what an operation had delivered when it stopped early
+// (a call reported an error): everything delivered must be a prefix of the
+// right result - complete lists for the documents visited before the failing
+// call, a prefix for the document the failing call was visiting.
+func PrefixRRes(got, want *RRes) string {
+	if got == nil || want == nil {
+		return ""
+	}
+	if len(got.Terms) > len(want.Terms) {
+		return fmt.Sprintf("%d dictionary entries delivered, the field has %d", len(got.Terms), len(want.Terms))
+	}
+	for i := range got.Terms {
+		if !bytesEq(got.Terms[i].Term, want.Terms[i].Term) || got.Terms[i].Count != want.Terms[i].Count {
+			return fmt.Sprintf("dictionary entry #%d: got %q/%d want %q/%d", i, string(got.Terms[i].Term), got.Terms[i].Count, string(want.Terms[i].Term), want.Terms[i].Count)
+		}
+	}
+	if len(got.Posts) > len(want.Posts) {
+		return fmt.Sprintf("%d postings delivered, the list has %d", len(got.Posts), len(want.Posts))
+	}
+	for i := range got.Posts {
+		if d := model.DiffPost(&got.Posts[i], &want.Posts[i]); d != "" {
+			return fmt.Sprintf("posting #%d %s", i, d)
+		}
+	}
+	if len(got.FVs) > len(want.FVs) {
+		return fmt.Sprintf("values of %d documents delivered, %d were visited", len(got.FVs), len(want.FVs))
+	}
+	for i := range got.FVs {
+		g, w := got.FVs[i], want.FVs[i]
+		if i < len(got.FVs)-1 {
+			if d := model.DiffFV(g, w); d != "" {
+				return fmt.Sprintf("visited document #%d: %s", i, d)
+			}
+			continue
+		}
+		if len(g) > len(w) {
+			return fmt.Sprintf("visited document #%d: %d values delivered, it has %d", i, len(g), len(w))
+		}
+		if d := model.DiffFV(g, w[:len(g)]); d != "" {
+			return fmt.Sprintf("visited document #%d: %s", i, d)
+		}
+	}
+	if got.Nested != nil && want.Nested != nil {
+		return PrefixRRes(got.Nested, want.Nested)
+	}
+	return ""
 }
